@@ -17,7 +17,7 @@ func init() {
 			"NOT decided (no sound static argument in reach relates two executions): independence from chunk size and parallelism of every operator, fill/limit/offset semantics, merge order, descending = reversed ascending, conformance with the documented semantics.",
 		Assumptions: commonAssumptions,
 		Technique:   "static analysis: must-follow pairing on go/cfg over all call sites, sibling agreement of the rewrite bodies, predicate-shape (truth-table) and guard (control-dependence) rules over every Window()/pass-through site of the executor",
-		Rules:       "C08.R1 R2 R3 R4 R5",
+		Rules:       "C08.R1 R2 R3 R4 R5 R6 R7",
 	}
 	All["C18"] = &Prop{
 		Run: c18,
@@ -123,6 +123,104 @@ func c08(c *an.Ctx) {
 	c08PassThrough(c)
 	c08PendingPoint(c)
 	c08EveryRow(c)
+	c08RowBudget(c)
+	c08TieBreak(c)
+}
+
+// c08RowBudget — C08.R6.  LIMIT n OFFSET m needs n+m rows from below.  A store-side shortcut that
+// stops reading once "the limit" is covered must count n+m; counting n returns fewer rows once the
+// data is spread over several files (and the right answer while it is still in one).
+func c08RowBudget(c *an.Ctx) {
+	r := c.Rule("C08.R6", "K-PREDSHAPE", "engine: a row budget compared against the query's LIMIT includes its OFFSET")
+	n := 0
+	for _, d := range c.P.AllDecls() {
+		if !an.InPkg(d, "engine") {
+			continue
+		}
+		f := c.P.Fn(d)
+		if f == nil {
+			continue
+		}
+		ast.Inspect(f.Body, func(m ast.Node) bool {
+			be, ok := m.(*ast.BinaryExpr)
+			if !ok {
+				return true
+			}
+			switch be.Op.String() {
+			case "<", "<=", ">", ">=":
+			default:
+				return true
+			}
+			l, rr := f.Canon(be.X), f.Canon(be.Y)
+			both := l + " ⋈ " + rr
+			if !strings.Contains(both, ".GetLimit()") {
+				return true
+			}
+			// tests of the limit itself against a constant ("is there a limit") are not budgets
+			if tv, ok := f.Info.Types[be.X]; ok && tv.Value != nil {
+				return true
+			}
+			if tv, ok := f.Info.Types[be.Y]; ok && tv.Value != nil {
+				return true
+			}
+			n++
+			if !strings.Contains(both, ".GetOffset()") {
+				r.Fail(d.Name()+": budget without the offset", c.P.Pos(be.Pos()), "%s compares %s with %s: the rows skipped by OFFSET are not part of the budget, the query gets fewer rows than LIMIT once the data lies in several files", d.Name(), l, rr)
+			}
+			return true
+		})
+	}
+	r.AddSites(n)
+	r.Floor(3, "row budgets derived from LIMIT")
+}
+
+// c08TieBreak — C08.R7.  first()/last() pick, among rows with the same extreme timestamp, the
+// greater value.  The in-chunk reduce and the cross-chunk MERGE of partial results must use the
+// same tie-break, otherwise the answer for two series that share the extreme timestamp depends
+// on whether a chunk boundary falls between them.
+func c08TieBreak(c *an.Ctx) {
+	const X = "engine/executor"
+	r := c.Rule("C08.R7", "K-SIBLING", X+": the First*/Last* merge functions break a timestamp tie by the value, like the reduce functions")
+	n := 0
+	for _, d := range c.P.AllDecls() {
+		if !an.InPkg(d, X) || d.Decl.Recv != nil {
+			continue
+		}
+		nm := d.Obj.Name()
+		if !(strings.HasSuffix(nm, "Merge") && (strings.Contains(nm, "First") || strings.Contains(nm, "Last"))) || strings.Contains(nm, "Bool") {
+			continue
+		}
+		f := c.P.Fn(d)
+		if f == nil || len(f.Params) != 2 {
+			continue
+		}
+		hasTimeOrder, hasTimeEq, hasValue := false, false, false
+		all := map[string]bool{}
+		for _, v := range f.G.Vs {
+			if v.IsCond {
+				f.FormulaOf(v.Cond, all)
+			}
+		}
+		for a := range all {
+			switch {
+			case strings.Contains(a, ".time<") && strings.HasSuffix(a, ".time"):
+				hasTimeOrder = true
+			case strings.Contains(a, ".time==") && strings.HasSuffix(a, ".time"):
+				hasTimeEq = true
+			case strings.Contains(a, ".value<") || strings.Contains(a, ".value)") || strings.Contains(a, ".value,"):
+				hasValue = true
+			}
+		}
+		if !hasTimeOrder {
+			continue // not a time-extreme merge
+		}
+		n++
+		if !hasTimeEq || !hasValue {
+			r.Fail(d.Name()+": tie not broken by the value", c.P.Pos(d.Decl.Pos()), "%s orders partial results by time only: on equal timestamps the later chunk wins whatever its value, while the in-chunk reduce prefers the greater value (atoms: %v)", d.Name(), keysOfMap(all))
+		}
+	}
+	r.AddSites(n)
+	r.Floor(4, "First*/Last* merge functions")
 }
 
 // c08EveryRow — C08.R5.  LimitTransform.SameGroup(i) advances the tag cursor only when i is
@@ -347,12 +445,26 @@ func c08PassThrough(c *an.Ctx) {
 // orders the same t against the other bound of the same call, and the two
 // comparisons combine to `start ≤ t ∧ t < end` or its negation.  A one-sided test
 // is accepted only in a function that reads the query direction (Ascending).
-func c08Window(c *an.Ctx) {
-	const X = "engine/executor"
-	r := c.Rule("C08.R2", "K-PREDSHAPE", "window membership of a row is the two-sided half-open test start ≤ t < end of one Window() call")
+func c08Window(c *an.Ctx) { windowMembership(c, "C08.R2", "engine/executor", 4) }
+
+// windowMembership is shared by C08.R2 (executor operators) and C09.R10 (store-side aggregate cursors).
+func windowMembership(c *an.Ctx, id, X string, floor int) {
+	r := c.Rule(id, "K-PREDSHAPE", X+": window membership of a row is the two-sided half-open test start ≤ t < end of one Window() call")
 	win := obj(r, queryPkg+":ProcessorOptions.Window")
 	if win == nil {
 		return
+	}
+	isWindowCall := func(info *types.Info, ce *ast.CallExpr) bool {
+		fn := an.Callee(info, ce)
+		if fn == nil {
+			return false
+		}
+		if fn == win {
+			return true
+		}
+		// the same method reached through the options interface
+		sig, ok := fn.Type().(*types.Signature)
+		return ok && fn.Name() == "Window" && sig.Params().Len() == 1 && sig.Results().Len() == 2 && sig.Recv() != nil
 	}
 	n := 0
 	for _, d := range c.P.AllDecls() {
@@ -372,7 +484,7 @@ func c08Window(c *an.Ctx) {
 				return true
 			}
 			ce, ok := ast.Unparen(as.Rhs[0]).(*ast.CallExpr)
-			if !ok || an.Callee(f.Info, ce) != win {
+			if !ok || !isWindowCall(f.Info, ce) {
 				return true
 			}
 			lv := func(e ast.Expr) types.Object {
@@ -522,7 +634,7 @@ func c08Window(c *an.Ctx) {
 		}
 	}
 	r.AddSites(n)
-	r.Floor(4, "boolean expressions ordering a time against Window() bounds held in locals")
+	r.Floor(floor, "boolean expressions ordering a time against Window() bounds held in locals")
 }
 
 var c18Exceptions = map[string]string{}
